@@ -9,6 +9,48 @@ let to_flags = function
       iGNORE_EXCEPTION_DETAIL = to_bool f; iGNORE_WANT = to_bool g }
   | _ -> raise (Bad "flags")
 
+(* ---- parser protocol ---- *)
+let to_lines x = to_list to_str x
+let of_lines l = of_list of_str l
+let to_directive = function
+  | L [n; p; a; i] -> { d_name = to_str n; d_positive = to_bool p; d_args = to_lines a; d_inline = to_bool i }
+  | _ -> raise (Bad "directive")
+let of_directive d = L [of_str d.d_name; of_bool d.d_positive; of_lines d.d_args; of_bool d.d_inline]
+let to_stmt = function
+  | L [l; d; e] -> { st_lineno = to_nat l; st_deco = to_opt to_nat d; st_is_expr = to_bool e }
+  | _ -> raise (Bad "stmt")
+let to_tok = function
+  | A "ok" -> T_ok | A "eof" -> T_eof_multiline | A "unindent" -> T_unindent | A "error" -> T_error
+  | _ -> raise (Bad "tok")
+let to_entry f = function
+  | L [k; A "raise"] -> (to_lines k, None)
+  | L [k; v] -> (to_lines k, Some (f v))
+  | _ -> raise (Bad "entry")
+let to_tables = function
+  | L [t; a; s; d] ->
+    { t_tok = to_list (to_entry to_tok) t; t_ast = to_list (to_entry (to_list to_stmt)) a;
+      t_semi = to_list (to_entry to_bool) s; t_dirs = to_list (to_entry (to_list to_directive)) d }
+  | _ -> raise (Bad "tables")
+let of_label = function TEXT -> A "text" | DSRC -> A "dsrc" | DCNT -> A "dcnt" | WANT -> A "want"
+let of_mode = function M_exec -> A "exec" | M_eval -> A "eval" | M_single -> A "single"
+let of_query = function
+  | Q_bal l -> L [A "need"; A "tok"; of_lines l]
+  | Q_ast l -> L [A "need"; A "ast"; of_lines l]
+  | Q_semi l -> L [A "need"; A "semi"; of_lines l]
+  | Q_dirs l -> L [A "need"; A "dirs"; of_lines l]
+let of_perr = function
+  | E_Incomplete -> A "incomplete" | E_Syntax -> A "syntax" | E_Assertion -> A "assertion"
+  | E_Index -> A "index" | E_Oracle -> A "oracle" | E_Need q -> of_query q
+let of_res f = function Ok a -> L [A "ok"; f a] | Err (E_Need q) -> of_query q | Err e -> L [A "err"; of_perr e]
+let of_part p =
+  L [A "part"; of_lines p.exec_lines; of_lines p.want_lines; of_nat p.line_offset; of_lines p.orig_lines;
+     of_list of_directive p.p_directives; of_mode p.compile_mode]
+let of_item = function IText t -> L [A "text"; of_str t] | IPart p -> of_part p
+let of_fp = function FP_label -> A "_label_docsrc_lines" | FP_group -> A "_group_labeled_lines" | FP_package -> A "_package_groups"
+let of_chunk = function
+  | TextChunk ls -> L [A "textchunk"; of_lines ls]
+  | CodeChunk (s, w) -> L [A "codechunk"; of_lines s; of_lines w]
+
 (* ---------- dispatch ---------- *)
 let dispatch_ref : (string -> sx list -> sx) ref = ref (fun _ _ -> raise (Bad "no dispatch"))
 
@@ -111,6 +153,22 @@ let dispatch (fn : string) (args : sx list) : sx =
                           | L [A "repr"; r] -> EvalRepr (to_str r) | _ -> raise (Bad "got_eval")) in
     A (match check_got_vs_want (to_flags fl) (to_str w) (to_str g) ev with
         | GW_ok -> "ok" | GW_gotwant -> "gotwant" | GW_extract_repr -> "extractrepr" | GW_repr_escapes -> "represcapes")
+  (* Parser *)
+  | "expandtabs", [s] -> of_str (expandtabs (to_str s))
+  | "min_indentation", [s] -> of_nat (min_indentation (to_str s))
+  | "normalize_docstring", [s] -> of_str (normalize_docstring (to_str s))
+  | "label_lines", [tabs; s] ->
+    let o = oracles_of_tables (to_tables tabs) in
+    of_res (of_list (of_pair of_label of_str)) (label_lines (o_bal o) (to_str s))
+  | "group_lines", [ll] ->
+    let lab = function A "text" -> TEXT | A "dsrc" -> DSRC | A "dcnt" -> DCNT | A "want" -> WANT | _ -> raise (Bad "label") in
+    of_res (of_list of_chunk) (group_lines (to_list (to_pair lab to_str) ll))
+  | "parse", [tabs; s] ->
+    let o = oracles_of_tables (to_tables tabs) in
+    (match Xdmodel_core.parse o (to_str s) with
+     | Parsed items -> L [A "parsed"; of_list of_item items]
+     | ParseError (fp, e) -> L [A "parseerror"; of_fp fp; of_perr e]
+     | NeedOracle q -> of_query q)
   | _ -> raise (Bad ("unknown function " ^ fn))
 
 
